@@ -25,27 +25,26 @@ theorem forLoop_fold {α β : Type} (emb : α → Val) (step : β → α → β)
 /-- a searching loop: the body returns (with `Q a v st'`) on the first element with `p a`, and otherwise goes
     on in a state that still satisfies `Inv` -/
 theorem forLoop_find {α : Type} (emb : α → Val) (p : α → Bool) (Inv : St → Prop) (Q : α → Val → St → Prop)
-    (f : Val → St → Flow)
-    (hstep : ∀ a st, Inv st →
+    (f : Val → St → Flow) (l : List α)
+    (hstep : ∀ a ∈ l, ∀ st, Inv st →
       (p a = true → ∃ v st', f (emb a) st = .ret v st' ∧ Q a v st') ∧
       (p a = false → ∃ st', f (emb a) st = .next st' ∧ Inv st')) :
-    ∀ (l : List α) (st : St), Inv st →
+    ∀ (st : St), Inv st →
       match l.find? p with
       | some a => ∃ v st', forLoop f (l.map emb) st = .ret v st' ∧ Q a v st'
       | none => ∃ st', forLoop f (l.map emb) st = .next st' ∧ Inv st' := by
-  intro l
   induction l with
   | nil => intro st h; exact ⟨st, rfl, h⟩
   | cons a r ih =>
     intro st h
     cases hp : p a with
     | true =>
-      obtain ⟨v, st1, h1, hq⟩ := (hstep a st h).1 hp
+      obtain ⟨v, st1, h1, hq⟩ := (hstep a (List.mem_cons_self ..) st h).1 hp
       simp only [List.find?_cons, hp]
       exact ⟨v, st1, by simp only [List.map_cons, forLoop, h1], hq⟩
     | false =>
-      obtain ⟨st1, h1, hi1⟩ := (hstep a st h).2 hp
-      have := ih st1 hi1
+      obtain ⟨st1, h1, hi1⟩ := (hstep a (List.mem_cons_self ..) st h).2 hp
+      have := ih (fun b hb => hstep b (List.mem_cons_of_mem _ hb)) st1 hi1
       simp only [List.find?_cons, hp, List.map_cons, forLoop, h1]
       exact this
 
@@ -59,13 +58,13 @@ theorem forLoop_fold_eq {α β : Type} (emb : α → Val) (step : β → α → 
 
 theorem forLoop_find_eq {α : Type} (emb : α → Val) (p : α → Bool) (Inv : St → Prop) (Q : α → Val → St → Prop)
     {f : Val → St → Flow} {l : List α} {st : St} {r : Flow} (hr : forLoop f (l.map emb) st = r) (hinv : Inv st)
-    (hstep : ∀ a st, Inv st →
+    (hstep : ∀ a ∈ l, ∀ st, Inv st →
       (p a = true → ∃ v st', f (emb a) st = .ret v st' ∧ Q a v st') ∧
       (p a = false → ∃ st', f (emb a) st = .next st' ∧ Inv st')) :
     match l.find? p with
     | some a => ∃ v st', r = .ret v st' ∧ Q a v st'
     | none => ∃ st', r = .next st' ∧ Inv st' := by
-  have := forLoop_find emb p Inv Q f hstep l st hinv
+  have := forLoop_find emb p Inv Q f l hstep st hinv
   rw [hr] at this
   exact this
 
